@@ -158,7 +158,7 @@ theorem deserializeBody_eq (S : Schema) (ty : String) (d : StructDef) :
         | some b => ["(window_start, window_end) = " ++ b ++ "._deserialize(buffer, instance)", "buffer = buffer[window_start:window_end]"]
         | none => [])) ++
       renderItems (emitDeserialize S d) ++ ["", "# pylint: disable=protected-access"] ++
-      (((ownFields d).filter fun f => f.kind.carries).map fun f => "instance._" ++ printerName f.name ++ " = " ++ printerName f.name) ++
+      ((nonReservedOwn d).map fun f => "instance._" ++ printerName f.name ++ " = " ++ printerName f.name) ++
       [if d.abstract then "return (" ++ sizeLocal d ++ " - len(buffer), " ++ sizeLocal d ++ ")" else "return instance"] := by
   rw [renderItems_emitDeserialize]
   unfold deserializeBody
